@@ -113,7 +113,7 @@ def small_case(entry):
 class Prop:
     id = "C15"
     lean_module = "MuduoVerif.Props.C15"
-    gen_engines = ["Monitor"]
+    gen_engines = ["Monitor", "ThreadSkel"]
     drivers = ["monitor"]
     technique = ("Lean 4 invariant proofs over a thread-indexed transition system of ThreadPool (workers, callers, stop split "
                  "into flag store / broadcasts / joins, unlocked read of running_, task execution as its own step, tasks that wait "
@@ -153,6 +153,7 @@ class Prop:
         "Lean 4.33.0 kernel; axioms allowed: propext, Classical.choice, Quot.sound",
         "vlib/extract.py + vlib/gen/monitor.py (clang-14 JSON AST -> Generated/Monitor.lean: skeletons, loop guards, isFull)",
         "hand-written Model/TPool.lean (interpretation of the skeletons), tied by identical-schedule differential runs",
+        "vlib/gen/threadskel.py + vlib/logskel_common.py (same AST -> Generated/ThreadSkel.lean: statement skeletons of MutexLock / MutexLockGuard / UnassignGuard (Mutex.h), Condition (Condition.h), Thread::start / join / ~Thread, detail::startThread, ThreadData::runInThread (Thread.cc)) and the hand-written reading Model/ThreadSkelDecl.lean (which atomic step of the model stands for which statements): that the code calls pthread in the modelled order is tied by decide; what the pthread / libc functions do stays trusted (POSIX)",
         "harness/sched/detsched.h + the named point ThreadPool::runInThread:beforeRunningTest (MUDUO_VERIF_POINT)",
         "pthread mutex/condition/join semantics (Mesa monitors, spurious wake-ups); std::deque, std::function copy/move",
     ]
